@@ -214,16 +214,24 @@ class Program:
         scopes.append(self.modules["model"].tree)  # tables may be hoisted to module level
 
         def table_of(value: ast.expr):
-            if isinstance(value, ast.Call) and isinstance(value.func, ast.Name) and value.func.id == "dict" and value.keywords and all(
-                k.arg and isinstance(k.value, ast.Constant) and isinstance(k.value.value, str) for k in value.keywords
-            ):
-                return {k.arg: k.value.value for k in value.keywords}
-            if isinstance(value, ast.Dict) and value.keys and all(
-                isinstance(k, ast.Constant) and isinstance(v, ast.Constant) and isinstance(k.value, str) and isinstance(v.value, str)
-                for k, v in zip(value.keys, value.values)
-            ):
-                return {k.value: v.value for k, v in zip(value.keys, value.values)}
-            return None
+            """role -> [constant strings of the entry]; entries may be strings, tuples / lists of
+            strings or small dicts of strings, the table a dict(...) call or a dict literal."""
+            items = None
+            if isinstance(value, ast.Call) and isinstance(value.func, ast.Name) and value.func.id == "dict" and value.keywords and all(k.arg for k in value.keywords):
+                items = [(k.arg, k.value) for k in value.keywords]
+            elif isinstance(value, ast.Dict) and value.keys and all(isinstance(k, ast.Constant) and isinstance(k.value, str) for k in value.keys):
+                items = [(k.value, v) for k, v in zip(value.keys, value.values)]
+            if not items:
+                return None
+            out = {}
+            for role, v in items:
+                strs = [c.value for c in ast.walk(v) if isinstance(c, ast.Constant) and isinstance(c.value, str)]
+                if isinstance(v, ast.Dict):
+                    strs = [c.value for x in v.values for c in ast.walk(x) if isinstance(c, ast.Constant) and isinstance(c.value, str)]
+                if not strs:
+                    return None
+                out[role] = strs
+            return out
 
         for scope in scopes:
             for node in ast.walk(scope):
@@ -237,11 +245,12 @@ class Program:
                 table = table_of(value)
                 if not table or len(table) < 6:
                     continue
-                if all(str(v).startswith("ladim.") for v in table.values()):
-                    if not self.role_module:
-                        self.role_module = {r: v[len("ladim.") :] for r, v in table.items()}
-                elif not self.role_class and all(v[:1].isupper() for v in table.values()):
-                    self.role_class = table
+                mods = {r: [x for x in v if x.startswith("ladim.")] for r, v in table.items()}
+                clss = {r: [x for x in v if x.isidentifier() and x[:1].isupper()] for r, v in table.items()}
+                if not self.role_module and all(len(m) == 1 for m in mods.values()):
+                    self.role_module = {r: m[0][len("ladim.") :] for r, m in mods.items()}
+                if not self.role_class and all(len(c) == 1 for c in clss.values()):
+                    self.role_class = {r: c[0] for r, c in clss.items()}
         init = self.modules["model"].functions.get("Model.__init__")
         if init is not None:
             for node in ast.walk(init.node):
@@ -620,6 +629,10 @@ def single_defs(fn: ast.AST) -> dict[str, ast.expr]:
                     count[x.id] = count.get(x.id, 0) + 1
         if isinstance(n, ast.Assign) and len(n.targets) == 1 and isinstance(n.targets[0], ast.Name):
             defs[n.targets[0].id] = n.value
+        if isinstance(n, ast.Assign) and len(n.targets) == 1 and isinstance(n.targets[0], (ast.Tuple, ast.List)) and isinstance(n.value, (ast.Tuple, ast.List)) and len(n.targets[0].elts) == len(n.value.elts):
+            for a, b in zip(n.targets[0].elts, n.value.elts):  # lon, lat = df["lon"], df["lat"]
+                if isinstance(a, ast.Name):
+                    defs[a.id] = b
         if isinstance(n, ast.AnnAssign) and isinstance(n.target, ast.Name) and n.value is not None:
             defs[n.target.id] = n.value
     params = set()
@@ -825,6 +838,77 @@ def call_chain(e: ast.expr):
 # ---------------------------------------------------------------------------
 # AST-level inlining of small local helpers (robustness against "extract function")
 # ---------------------------------------------------------------------------
+def eliminate_early_returns(stmts: list, result: Optional[str] = None) -> Optional[list]:
+    """Statement list of a function -> equivalent list without `return`
+    (`if c: A; return x` + rest  ==>  `if c: A; result = x else: rest`), or None if a return sits inside
+    a loop / try / with. With `result=None` only bare returns are accepted."""
+    import copy
+
+    def ret_stmt(r: ast.Return):
+        if r.value is None:
+            return []
+        if result is None:
+            raise ValueError("value return")
+        return [ast.fix_missing_locations(ast.copy_location(ast.Assign(targets=[ast.Name(id=result, ctx=ast.Store())], value=r.value), r))]
+
+    out = []
+    try:
+        for i, st in enumerate(stmts):
+            if isinstance(st, ast.Return):
+                return out + ret_stmt(st)  # everything after an unconditional return is dead
+            if isinstance(st, ast.If):
+                body_ret = any(isinstance(x, ast.Return) for b in st.body for x in ast.walk(b))
+                else_ret = any(isinstance(x, ast.Return) for b in st.orelse for x in ast.walk(b))
+                if body_ret or else_ret:
+                    rest = stmts[i + 1 :]
+                    b = eliminate_early_returns(st.body, result)
+                    e = eliminate_early_returns(st.orelse, result)
+                    if b is None or e is None:
+                        return None
+                    b_term = bool(st.body) and _ends_with_return(st.body)
+                    e_term = bool(st.orelse) and _ends_with_return(st.orelse)
+                    r = eliminate_early_returns(rest, result)
+                    if r is None:
+                        return None
+                    new = copy.copy(st)
+                    new.body = (b + ([] if b_term else copy.deepcopy(r))) or [ast.Pass()]
+                    new.orelse = e + ([] if e_term else copy.deepcopy(r))
+                    out.append(ast.fix_missing_locations(new))
+                    return out
+                out.append(st)
+                continue
+            if isinstance(st, ast.Try) and not st.handlers == [] and not any(isinstance(x, ast.Return) for h in st.handlers for x in ast.walk(h)) and not any(isinstance(x, ast.Return) for x in st.finalbody for x in ast.walk(x)):
+                # try: ...; return v  except E: <stop>   (handlers never return): fold inside the protected body
+                if any(isinstance(x, ast.Return) for b in st.body + st.orelse for x in ast.walk(b)):
+                    rest = stmts[i + 1 :]
+                    tb = eliminate_early_returns(st.body + st.orelse + ([] if _ends_with_return(st.body + st.orelse) else rest), result)
+                    if tb is None or not _ends_with_return(st.body + st.orelse):
+                        return None
+                    new = copy.copy(st)
+                    new.body, new.orelse = tb or [ast.Pass()], []
+                    out.append(ast.fix_missing_locations(new))
+                    return out
+                out.append(st)
+                continue
+            if any(isinstance(x, ast.Return) for x in ast.walk(st)):
+                return None  # return inside a loop / with: not folded
+            out.append(st)
+    except ValueError:
+        return None
+    return out
+
+
+def _ends_with_return(stmts: list) -> bool:
+    if not stmts:
+        return False
+    last = stmts[-1]
+    if isinstance(last, ast.Return):
+        return True
+    if isinstance(last, ast.If) and last.orelse:
+        return _ends_with_return(last.body) and _ends_with_return(last.orelse)
+    return False
+
+
 def _helper_of(prog: "Program", fi: FuncInfo, call: ast.Call, private_only: bool) -> Optional[FuncInfo]:
     f = call.func
     name = None
@@ -849,8 +933,15 @@ def _helper_of(prog: "Program", fi: FuncInfo, call: ast.Call, private_only: bool
         if isinstance(n, (ast.Yield, ast.YieldFrom, ast.Lambda)) or (isinstance(n, (ast.FunctionDef, ast.ClassDef)) and n is not h.node):
             return None
     rets = [n for n in ast.walk(h.node) if isinstance(n, ast.Return)]
-    if len(rets) > 1 or (rets and (not body or rets[0] is not body[-1])):
-        return None
+    if rets and all(r.value is None for r in rets):
+        # a procedure with guard clauses (`if c: return`): acceptable when the early returns can be
+        # folded into if/else (checked by eliminate_early_returns at expansion time)
+        if eliminate_early_returns(body) is None:
+            return None
+    elif len(rets) > 1 or (rets and (not body or rets[0] is not body[-1])):
+        # several value returns: acceptable when they fold into one result variable
+        if eliminate_early_returns(body, "__result") is None:
+            return None
     if any(isinstance(a, ast.Starred) for a in call.args) or any(k.arg is None for k in call.keywords):
         return None
     if h.node.args.vararg or h.node.args.kwarg:
@@ -913,11 +1004,23 @@ def inline_helpers(prog: "Program", fi: FuncInfo, depth: int = 2, private_only: 
                 continue
             pre.append(ast.Assign(targets=[ast.Name(id=mapping[p_], ctx=ast.Store())], value=copy.deepcopy(v), lineno=call.lineno, col_offset=0))
         body = [s for s in node.body if not (isinstance(s, ast.Expr) and isinstance(s.value, ast.Constant))]
+        all_rets = [x for b_ in body for x in ast.walk(b_) if isinstance(x, ast.Return)]
+        folded_result = None
+        if all_rets and all(x.value is None for x in all_rets):
+            body = eliminate_early_returns(body) or body
+        elif len(all_rets) > 1 or (all_rets and all_rets[0] is not body[-1]):
+            rname = "result" + tag
+            fb = eliminate_early_returns(body, rname)
+            if fb is None:
+                return None
+            body, folded_result = fb, rname
         body = [Rename(mapping).visit(s) for s in body]
         if direct:
             body = [_Subst(direct).visit(s) for s in body]
         result = None
-        if body and isinstance(body[-1], ast.Return):
+        if folded_result is not None:
+            result = ast.Name(id=folded_result, ctx=ast.Load())
+        elif body and isinstance(body[-1], ast.Return):
             result = body[-1].value
             body = body[:-1]
         stmts = pre + body
@@ -1175,3 +1278,225 @@ def path_records(body: list, init_env: Optional[dict] = None, rename: Optional[d
                     stores.append(("return", unparse(sub(st.value)), st))
         out.append((p, conds, stores))
     return out
+
+
+def expand_tests(fi: FuncInfo) -> FuncInfo:
+    """Copy of `fi` where every `if` / `while` / conditional-expression test has its single-assignment
+    temporaries substituted (`ok = a and b; if not ok:` reads as `if not (a and b):`)."""
+    import copy
+
+    node = copy.deepcopy(fi.node)
+
+    def is_test(v: ast.expr) -> bool:
+        return isinstance(v, (ast.Compare, ast.BoolOp)) or (isinstance(v, ast.UnaryOp) and isinstance(v.op, ast.Not)) or (isinstance(v, ast.Call) and unparse(v.func) in ("any", "all", "callable", "isinstance", "hasattr", "bool"))
+
+    defs = {k: v for k, v in single_defs(node).items() if is_test(v)}  # named tests only
+
+    class T(ast.NodeTransformer):
+        def visit_If(self, n: ast.If):
+            self.generic_visit(n)
+            n.test = _Subst(defs).visit(n.test)
+            return n
+
+        def visit_While(self, n: ast.While):
+            self.generic_visit(n)
+            n.test = _Subst(defs).visit(n.test)
+            return n
+
+        def visit_IfExp(self, n: ast.IfExp):
+            self.generic_visit(n)
+            n.test = _Subst(defs).visit(n.test)
+            return n
+
+    node = ast.fix_missing_locations(T().visit(node))
+    return FuncInfo(fi.module, fi.qual, node, fi.cls)
+
+
+def flip_negated_ifs(fi: FuncInfo) -> FuncInfo:
+    """`if not c: A else: B` -> `if c: B else: A` (only when both arms exist, or the first is `pass`)."""
+    import copy
+
+    class F(ast.NodeTransformer):
+        def visit_If(self, n: ast.If):
+            self.generic_visit(n)
+            if isinstance(n.test, ast.UnaryOp) and isinstance(n.test.op, ast.Not) and n.orelse:
+                only_pass = all(isinstance(b, ast.Pass) for b in n.body)
+                n.test, n.body, n.orelse = n.test.operand, n.orelse, ([] if only_pass else n.body)
+            return n
+
+    node = ast.fix_missing_locations(F().visit(copy.deepcopy(fi.node)))
+    return FuncInfo(fi.module, fi.qual, node, fi.cls)
+
+
+def loops_to_comprehensions(fi: FuncInfo) -> FuncInfo:
+    """`acc = []` ... `for T in IT: acc.append(E)`  ->  `acc = [E for T in IT]` when the loop body is that
+    single append and `acc` is not touched between its initialisation and the loop."""
+    import copy
+
+    def rewrite(stmts: list) -> list:
+        out: list = []
+        for st in stmts:
+            for field in ("body", "orelse", "finalbody"):
+                if hasattr(st, field) and isinstance(getattr(st, field), list) and not isinstance(st, (ast.FunctionDef, ast.ClassDef)):
+                    setattr(st, field, rewrite(getattr(st, field)))
+            if isinstance(st, ast.For) and not st.orelse and len(st.body) == 1 and isinstance(st.body[0], ast.Expr) and isinstance(st.body[0].value, ast.Call):
+                c = st.body[0].value
+                if isinstance(c.func, ast.Attribute) and c.func.attr == "append" and isinstance(c.func.value, ast.Name) and len(c.args) == 1 and not c.keywords:
+                    acc = c.func.value.id
+                    # find the initialisation `acc = []` among the preceding statements of this list
+                    for k in range(len(out) - 1, -1, -1):
+                        prev = out[k]
+                        mentions = any(isinstance(x, ast.Name) and x.id == acc for x in ast.walk(prev))
+                        is_init = isinstance(prev, (ast.Assign, ast.AnnAssign)) and unparse(prev.targets[0] if isinstance(prev, ast.Assign) else prev.target) == acc and isinstance(prev.value, ast.List) and not prev.value.elts
+                        if is_init:
+                            comp = ast.ListComp(elt=c.args[0], generators=[ast.comprehension(target=st.target, iter=st.iter, ifs=[], is_async=0)])
+                            new = ast.Assign(targets=[ast.Name(id=acc, ctx=ast.Store())], value=comp)
+                            out[k:k + 1] = []
+                            st = ast.fix_missing_locations(ast.copy_location(new, st))
+                            break
+                        if mentions:
+                            break
+            out.append(st)
+        return out
+
+    node = copy.deepcopy(fi.node)
+    node.body = rewrite(node.body)
+    return FuncInfo(fi.module, fi.qual, ast.fix_missing_locations(node), fi.cls)
+
+
+def _pure_expr(e: ast.expr) -> bool:
+    return not any(isinstance(x, (ast.Call, ast.Await, ast.Yield, ast.YieldFrom, ast.NamedExpr, ast.Lambda)) for x in ast.walk(e))
+
+
+def propagate_locals(fi: FuncInfo) -> FuncInfo:
+    """Forward substitution of call-free local definitions (`times = self._df.index`,
+    `mask = times >= self.stop_time`) into the statements that follow, block by block, until the name
+    is rebound or something the definition reads is stored to. The defining statements stay."""
+    import copy
+
+    def names_stored(stmts) -> set:
+        return {x.id for b in stmts for x in ast.walk(b) if isinstance(x, ast.Name) and isinstance(x.ctx, (ast.Store, ast.Del))}
+
+    def paths_stored(st) -> set:
+        out = set()
+        tg = st.targets if isinstance(st, ast.Assign) else [st.target] if isinstance(st, (ast.AugAssign, ast.AnnAssign)) else []
+        for t in tg:
+            for el in t.elts if isinstance(t, (ast.Tuple, ast.List)) else [t]:
+                b = el
+                while isinstance(b, ast.Subscript):
+                    b = b.value
+                if isinstance(b, ast.Attribute):
+                    out.add(unparse(b))
+        return out
+
+    def invalidate(env: dict, names: set, paths: set) -> None:
+        for k in list(env):
+            v = env[k]
+            txt = unparse(v)
+            if k in names or any(isinstance(x, ast.Name) and x.id in names for x in ast.walk(v)) or any(p_ in txt for p_ in paths):
+                env.pop(k, None)
+
+    def sub(e, env):
+        return _Subst(dict(env), depth=1).visit(copy.deepcopy(e)) if env else e
+
+    def prop(stmts: list, env: dict) -> list:
+        out = []
+        for st in stmts:
+            st = copy.copy(st)
+            if isinstance(st, ast.If):
+                st.test = sub(st.test, env)
+                st.body = prop(st.body, dict(env))
+                st.orelse = prop(st.orelse, dict(env))
+                stored = names_stored(st.body + st.orelse)
+                pst = set().union(*[paths_stored(x) for b in st.body + st.orelse for x in ast.walk(b) if isinstance(x, ast.stmt)]) if (st.body or st.orelse) else set()
+                invalidate(env, stored, pst)
+                out.append(st)
+                continue
+            if isinstance(st, (ast.For, ast.While, ast.With, ast.Try)):
+                inner = [x for x in ast.walk(st) if isinstance(x, ast.stmt) and x is not st]
+                stored = names_stored([st])
+                pst = set().union(*[paths_stored(x) for x in inner]) if inner else set()
+                invalidate(env, stored, pst)
+                for field in ("body", "orelse", "finalbody"):
+                    if hasattr(st, field) and isinstance(getattr(st, field), list):
+                        setattr(st, field, prop(getattr(st, field), dict(env)))
+                if isinstance(st, ast.Try):
+                    st.handlers = [copy.copy(h) for h in st.handlers]
+                    for h in st.handlers:
+                        h.body = prop(h.body, dict(env))
+                out.append(st)
+                continue
+            if isinstance(st, (ast.Assign, ast.AnnAssign, ast.AugAssign, ast.Return, ast.Expr, ast.Raise)):
+                for field in ("value", "exc"):
+                    v = getattr(st, field, None)
+                    if isinstance(v, ast.AST):
+                        setattr(st, field, sub(v, env))
+                if isinstance(st, ast.Assign):
+                    st.targets = [sub(t, env) if not isinstance(t, (ast.Name, ast.Tuple, ast.List)) else t for t in st.targets]
+                stored = names_stored([st])
+                invalidate(env, stored, paths_stored(st))
+                if isinstance(st, ast.Assign) and len(st.targets) == 1 and isinstance(st.targets[0], ast.Name) and _pure_expr(st.value):
+                    env[st.targets[0].id] = st.value
+            out.append(st)
+        return out
+
+    node = copy.deepcopy(fi.node)
+    node.body = prop(node.body, {})
+    return FuncInfo(fi.module, fi.qual, ast.fix_missing_locations(node), fi.cls)
+
+
+def sink_branch_temporaries(fi: FuncInfo) -> FuncInfo:
+    """`if c: x = A else: x = B` followed by a statement S(x)  ->  `if c: S(A) else: S(B)` when each arm
+    only assigns that one call-free local and x is not read after S."""
+    import copy
+
+    def rewrite(stmts: list) -> list:
+        out = []
+        i = 0
+        while i < len(stmts):
+            st = stmts[i]
+            for field in ("body", "orelse", "finalbody"):
+                if hasattr(st, field) and isinstance(getattr(st, field), list) and not isinstance(st, (ast.FunctionDef, ast.ClassDef)):
+                    setattr(st, field, rewrite(getattr(st, field)))
+            if isinstance(st, ast.If) and len(st.body) == 1 and len(st.orelse) == 1 and i + 1 < len(stmts):
+                a, b = st.body[0], st.orelse[0]
+                nxt = stmts[i + 1]
+                if isinstance(a, ast.Assign) and isinstance(b, ast.Assign) and len(a.targets) == 1 and len(b.targets) == 1 and isinstance(a.targets[0], ast.Name) and isinstance(b.targets[0], ast.Name) and a.targets[0].id == b.targets[0].id and _pure_expr(a.value) and _pure_expr(b.value) and isinstance(nxt, (ast.Assign, ast.AugAssign, ast.Expr)):
+                    x = a.targets[0].id
+                    reads_next = any(isinstance(n, ast.Name) and n.id == x and isinstance(n.ctx, ast.Load) for n in ast.walk(nxt))
+                    reads_later = any(isinstance(n, ast.Name) and n.id == x and isinstance(n.ctx, ast.Load) for later in stmts[i + 2 :] for n in ast.walk(later))
+                    if reads_next and not reads_later:
+                        new = copy.copy(st)
+                        new.body = [_Subst({x: a.value}, depth=1).visit(copy.deepcopy(nxt))]
+                        new.orelse = [_Subst({x: b.value}, depth=1).visit(copy.deepcopy(nxt))]
+                        out.append(ast.fix_missing_locations(new))
+                        i += 2
+                        continue
+            out.append(st)
+            i += 1
+        return out
+
+    node = copy.deepcopy(fi.node)
+    node.body = rewrite(node.body)
+    return FuncInfo(fi.module, fi.qual, ast.fix_missing_locations(node), fi.cls)
+
+
+def reading_view(prog: "Program", fi: FuncInfo, propagate: bool = False) -> FuncInfo:
+    """The function as the text-reading rules see it: private helpers inlined, table-driven loops
+    unrolled, append-loops as comprehensions, locals forwarded to attributes replaced by the
+    attributes, named tests expanded, negated two-armed ifs flipped. With `propagate`, call-free local
+    definitions are also substituted forward and branch temporaries sunk into the branches (for rules
+    that follow one object, e.g. the release table, through a sequence of statements)."""
+    f = inline_helpers(prog, fi)
+    f = FuncInfo(f.module, f.qual, unroll_literal_loops(f.node), f.cls)
+    f = loops_to_comprehensions(f)
+    if propagate:
+        f = sink_branch_temporaries(propagate_locals(f))
+    f = forward_attr_locals(f)
+    return flip_negated_ifs(expand_tests(f))
+
+
+def release_init_view(prog: "Program") -> FuncInfo:
+    """ParticleReleaser.__init__ as the statement-reading rules see it: the release table `self._df`
+    is followed through its filters with temporaries propagated and branch masks sunk back."""
+    return reading_view(prog, prog.role_func("release", "__init__"), propagate=True)
